@@ -659,7 +659,10 @@ pub fn check_repl_consistency(c: &Cluster) -> Vec<String> {
 }
 
 #[derive(Default)]
-pub struct C06Monitor {}
+pub struct C06Monitor {
+    /// proxies that were failed over, are still in their chunk (unreplaced) and still failed / reported
+    failed_over: BTreeSet<String>,
+}
 
 impl Monitor for C06Monitor {
     fn observe(
@@ -699,6 +702,62 @@ impl Monitor for C06Monitor {
                         ),
                         h.replay(json!({"after": op.to_json()})),
                     );
+                }
+            }
+        }
+
+        // "afterwards no node of a failed, unreplaced proxy is master": followed through the rest
+        // of the history, for as long as the proxy stays in its chunk, stays failed / reported and
+        // its chunk partner stays healthy (and is not itself failed over by the generator)
+        {
+            let unhealthy = |s: &Snap, x: &str| s.store.failed_proxies.contains(x) || s.store.failures.contains_key(x);
+            let partner_of = |s: &Snap, x: &str| -> Option<String> {
+                let cname = s.store.all_proxies.get(x)?.cluster.clone()?;
+                let chunk = s.store.clusters.get(&cname)?.chunks.iter().find(|c| c.proxy_addresses.iter().any(|p| p == x))?;
+                chunk.proxy_addresses.iter().find(|p| *p != x).cloned()
+            };
+            let masters_on = |s: &Snap, x: &str| -> Option<usize> {
+                let cname = s.store.all_proxies.get(x)?.cluster.clone()?;
+                let c = s.cluster(&cname, 0)?;
+                Some(c.get_nodes().iter().filter(|n| n.get_proxy_address() == x && n.get_role() == Role::Master).count())
+            };
+            match op {
+                Op::ReplaceFailedProxy(x) if !matches!(res, OpRes::Panic(_)) => {
+                    // an explicit failover of the partner overrides the premise for the other half
+                    let gone: Vec<String> = self.failed_over.iter().filter(|a| partner_of(pre, a).as_deref() == Some(x.as_str())).cloned().collect();
+                    for g in gone {
+                        self.failed_over.remove(&g);
+                    }
+                    if masters_on(post, x) == Some(0) && unhealthy(post, x) {
+                        self.failed_over.insert(x.clone());
+                    }
+                }
+                Op::AddProxy { addr, .. } => {
+                    self.failed_over.remove(addr);
+                }
+                _ => {}
+            }
+            let keep: BTreeSet<String> = self
+                .failed_over
+                .iter()
+                .filter(|a| unhealthy(post, a) && post.store.all_proxies.get(*a).map(|p| p.cluster.is_some()).unwrap_or(false))
+                .cloned()
+                .collect();
+            self.failed_over = keep;
+            for a in self.failed_over.iter() {
+                let partner_ok = partner_of(post, a).map(|p| !unhealthy(post, &p)).unwrap_or(false);
+                if !partner_ok {
+                    continue;
+                }
+                rep.count("failed_unreplaced_proxies_followed", 1);
+                if let Some(m) = masters_on(post, a) {
+                    if m > 0 {
+                        rep.violation(
+                            format!("C06:failed-unreplaced-proxy-is-master-again:after-{}", op.name()),
+                            format!("{} was failed over, is still in its chunk and still failed / reported, its partner is healthy, but after {} it hosts {} master node(s) again", a, op.name(), m),
+                            h.replay(json!({"proxy": a, "after": op.to_json()})),
+                        );
+                    }
                 }
             }
         }
